@@ -381,12 +381,24 @@ async fn run(case: Value) -> Outcome {
             _ = tokio::time::advance(std::time::Duration::from_millis(1)) => {}
         }
     }
-    // whatever is ready right now still counts
+    // The inputs have continued long enough for every operator to see what it needs (larger keys, rows on
+    // every partition). How far the *pipeline* got in the meantime depends on the schedule: a task the
+    // scheduler favours least gets a turn only every few hundred decisions while the input tasks are always
+    // runnable. So the inputs now pause (they stay pending, as a quiet stream would) and the query is read
+    // until the whole system is idle: everything that was in flight arrives, at whatever pace.
     if !ended {
-        while let Some(Some(b)) = futures::FutureExt::now_or_never(stream.next()) {
-            match b {
-                Ok(batch) => got.extend(sqlsim::batches_to_cells(&[batch]).unwrap_or_default()),
+        st_a.pause_fillers.store(true, std::sync::atomic::Ordering::Relaxed);
+        st_b.pause_fillers.store(true, std::sync::atomic::Ordering::Relaxed);
+        loop {
+            // (the paused clock only jumps to this timer when nothing at all is runnable)
+            match tokio::time::timeout(std::time::Duration::from_secs(3600), stream.next()).await {
                 Err(_) => break,
+                Ok(None) => {
+                    ended = true;
+                    break;
+                }
+                Ok(Some(Ok(batch))) => got.extend(sqlsim::batches_to_cells(&[batch]).unwrap_or_default()),
+                Ok(Some(Err(e))) => return violation("unexpected-error", format!("`{sql}` failed over an unbounded input: {}", sqlsim::error_text(&e))),
             }
         }
     }
